@@ -62,7 +62,9 @@ class _nominal_builder:
         self.config = config
 
     def append(self, channel, sample, defined_samp):
-        self.mega_samples.setdefault(sample, {'name': f'mega_{sample}', 'nom': []})
+        self.mega_samples.setdefault(
+            sample, {'name': f'mega_{sample}', 'nom': [], 'present': []}
+        )
         nom = (
             defined_samp['data']
             if defined_samp
@@ -73,26 +75,36 @@ class _nominal_builder:
                 f'expected {self.config.channel_nbins[channel]} size sample data but got {len(nom)}'
             )
         self.mega_samples[sample]['nom'].append(nom)
+        # whether the sample is part of this channel at all (a sample that is
+        # not has no yield there, which is different from a yield of zero)
+        self.mega_samples[sample]['present'].append(
+            [1.0 if defined_samp else 0.0] * len(nom)
+        )
 
     def finalize(self):
         default_backend = pyhf.default_backend
 
+        shape = (
+            1,  # modifier dimension.. nominal_rates is the base
+            len(self.config.samples),
+            1,  # alphaset dimension
+            sum(list(self.config.channel_nbins.values())),
+        )
         nominal_rates = default_backend.astensor(
             [
                 default_backend.concatenate(self.mega_samples[sample]['nom'])
                 for sample in self.config.samples
             ]
         )
-        _nominal_rates = default_backend.reshape(
-            nominal_rates,
-            (
-                1,  # modifier dimension.. nominal_rates is the base
-                len(self.config.samples),
-                1,  # alphaset dimension
-                sum(list(self.config.channel_nbins.values())),
-            ),
+        _nominal_rates = default_backend.reshape(nominal_rates, shape)
+        sample_present = default_backend.astensor(
+            [
+                default_backend.concatenate(self.mega_samples[sample]['present'])
+                for sample in self.config.samples
+            ]
         )
-        return _nominal_rates
+        _sample_present = default_backend.reshape(sample_present, shape)
+        return _nominal_rates, _sample_present
 
 
 def _nominal_and_modifiers_from_spec(modifier_set, config, spec, batch_size):
@@ -167,7 +179,7 @@ def _nominal_and_modifiers_from_spec(modifier_set, config, spec, batch_size):
                 modifiers_builders[mtype].append(key, c, s, thismod, defined_samp)
 
     # 4. finalize nominal & modifier builders
-    nominal_rates = nominal.finalize()
+    nominal_rates, sample_present = nominal.finalize()
     finalizd_builder_data = {}
     for k, (builder, applier) in modifier_set.items():
         finalizd_builder_data[k] = modifiers_builders[k].finalize()
@@ -209,7 +221,7 @@ def _nominal_and_modifiers_from_spec(modifier_set, config, spec, batch_size):
             **config.modifier_settings.get(k, {}),
         )
 
-    return the_modifiers, nominal_rates
+    return the_modifiers, nominal_rates, sample_present
 
 
 class _ModelConfig(_ChannelSummaryMixin):
@@ -596,6 +608,7 @@ class _MainModel:
         batch_size=None,
         clip_sample_data: Union[float, None] = None,
         clip_bin_data: Union[float, None] = None,
+        sample_present=None,
     ):
         default_backend = pyhf.default_backend
 
@@ -619,6 +632,11 @@ class _MainModel:
         self._nominal_rates = default_backend.tile(
             nominal_rates, (1, 1, self.batch_size or 1, 1)
         )
+        self._sample_present = (
+            None
+            if sample_present is None
+            else default_backend.tile(sample_present, (1, 1, self.batch_size or 1, 1))
+        )
 
         self.modifiers_appliers = modifiers
 
@@ -634,6 +652,11 @@ class _MainModel:
     def _precompute(self):
         tensorlib, _ = get_backend()
         self.nominal_rates = tensorlib.astensor(self._nominal_rates)
+        self.sample_present = (
+            None
+            if self._sample_present is None
+            else tensorlib.astensor(self._sample_present, dtype='bool')
+        )
 
     def has_pdf(self):
         """
@@ -735,8 +758,15 @@ class _MainModel:
 
         newbysample = tensorlib.product(allfac, axis=0)
         if self.clip_sample_data is not None:
-            newbysample = tensorlib.clip(
+            clipped = tensorlib.clip(
                 newbysample, self.clip_sample_data, max_value=None
+            )
+            # the floor applies to the yields of the samples of a channel, not
+            # to samples that are not part of that channel
+            newbysample = (
+                clipped
+                if self.sample_present is None
+                else tensorlib.where(self.sample_present[0], clipped, newbysample)
             )
 
         if return_by_sample:
@@ -800,7 +830,7 @@ class Model:
         poi_name = config_kwargs.pop("poi_name", None)
         self._config = _ModelConfig(self.spec, **config_kwargs)
 
-        modifiers, _nominal_rates = _nominal_and_modifiers_from_spec(
+        modifiers, _nominal_rates, _sample_present = _nominal_and_modifiers_from_spec(
             modifier_set, self.config, self.spec, self.batch_size
         )
 
@@ -815,6 +845,7 @@ class Model:
             batch_size=self.batch_size,
             clip_sample_data=clip_sample_data,
             clip_bin_data=clip_bin_data,
+            sample_present=_sample_present,
         )
 
         # the below call needs auxdata order for example
